@@ -29,6 +29,24 @@ PROXY_HEADER_SETS = [
 ]
 
 
+PROXY_VERIFY = ["default", "assert-match", "assert-other", "assert-notproxy", "assert-false", "pin-right", "pin-wrong", "ctx-trusting", "ctx-empty"]
+
+
+def proxy_leg_ok(case: dict[str, typing.Any]) -> bool:
+    """Reference for the TLS leg to an https proxy: chain against the configured CAs, then name or pin."""
+    pv = case.get("proxy_verify", "default")
+    if case["proxy_cert"] == "untrusted" or pv == "ctx-empty":
+        return False
+    san = "proxy.test" if case["proxy_cert"] == "ok" else "notproxy.test"
+    if pv == "pin-right" or pv == "assert-false":
+        return True
+    if pv == "pin-wrong" or pv == "assert-other":
+        return False
+    if pv == "assert-notproxy":
+        return san == "notproxy.test"
+    return san == "proxy.test"
+
+
 def want_tunnel(proxy_scheme: str, dest_scheme: str, forwarding: bool) -> bool:
     if dest_scheme != "https":
         return False
@@ -67,9 +85,10 @@ def random_case(rng: typing.Any) -> dict[str, typing.Any]:
             r.update({k: reqs[0][k] for k in ("scheme", "host", "port", "leaf")})
     return {
         "proxy_scheme": proxy_scheme, "forwarding": rng.random() < 0.35, "proxy_cert": rng.choice(["ok"] * 6 + ["bad-name", "untrusted"]) if proxy_scheme == "https" else "ok",
-        "origin_cert": rng.choice(["ok"] * 5 + ["bad-name", "untrusted"]), "connect_replies": [rng.choice(CONNECT_REPLIES) for _ in range(3)],
+        "origin_cert": rng.choice(["ok"] * 6 + ["bad-name", "untrusted", "proxy-cert"]), "connect_replies": [rng.choice(CONNECT_REPLIES) for _ in range(3)],
         "proxy_headers": rng.randrange(len(PROXY_HEADER_SETS)), "close_after": rng.choice([None, None, 1, 2]), "silent_close": rng.random() < 0.5, "reqs": reqs,
         "retries": rng.choice([False, False, 1]), "ctor": rng.choice(["ProxyManager", "proxy_from_url"]), "proxy_url_form": rng.choice(["proxy.test:3128", "PROXY.test:3128", "proxy.test"]),
+        "proxy_verify": rng.choice(PROXY_VERIFY + ["default"] * 6) if proxy_scheme == "https" else "default",
     }
 
 
@@ -91,6 +110,8 @@ def run_case(rec: Recorder, case: dict[str, typing.Any], certs: tlsnet.Certs) ->
                     return (r["leaf"], "trusted")
                 if case["origin_cert"] == "untrusted":
                     return (r["leaf"], "untrusted")
+                if case["origin_cert"] == "proxy-cert":
+                    return ("proxy", "trusted")
                 return ("other", "trusted")
         return ("other", "trusted")
 
@@ -104,6 +125,35 @@ def run_case(rec: Recorder, case: dict[str, typing.Any], certs: tlsnet.Certs) ->
     with tlsnet.TLSNet(script, certs) as net, warnings.catch_warnings():
         warnings.simplefilter("ignore")
         kw: dict[str, typing.Any] = {"proxy_headers": dict(ph), "use_forwarding_for_https": case["forwarding"], "ca_certs": certs.ca_file, "retries": False}
+        pv = case.get("proxy_verify", "default")
+        if pv != "default":
+            import hashlib
+
+            from urllib3.util.ssl_ import create_urllib3_context
+
+            der = certs.get(*proxy_leaf)["der"]
+            if pv == "assert-match":
+                kw["proxy_assert_hostname"] = "proxy.test"
+            elif pv == "assert-other":
+                kw["proxy_assert_hostname"] = "elsewhere.test"
+            elif pv == "assert-notproxy":
+                kw["proxy_assert_hostname"] = "notproxy.test"
+            elif pv == "assert-false":
+                kw["proxy_assert_hostname"] = False
+            elif pv == "pin-right":
+                kw["proxy_assert_fingerprint"] = hashlib.sha256(der).hexdigest()
+            elif pv == "pin-wrong":
+                kw["proxy_assert_fingerprint"] = hashlib.sha256(der + b"x").hexdigest()
+            elif pv in ("ctx-trusting", "ctx-empty"):
+                # CAs come from the contexts only: one for the proxy leg, one for the origin
+                del kw["ca_certs"]
+                pctx = create_urllib3_context()
+                if pv == "ctx-trusting":
+                    pctx.load_verify_locations(certs.ca_file)
+                kw["proxy_ssl_context"] = pctx
+                octx = create_urllib3_context()
+                octx.load_verify_locations(certs.ca_file)
+                kw["ssl_context"] = octx
         url = f"{ps}://{case['proxy_url_form']}"
         pm = urllib3.ProxyManager(url, **kw) if case["ctor"] == "ProxyManager" else urllib3.proxy_from_url(url, **kw)
         proxy_port = 3128 if ":" in case["proxy_url_form"] else (443 if ps == "https" else 80)
@@ -156,7 +206,9 @@ def run_case(rec: Recorder, case: dict[str, typing.Any], certs: tlsnet.Certs) ->
         if (d[0].lower().rstrip("."), d[1]) != ("proxy.test", proxy_port):
             bad("dialled-outside-the-proxy", {"dial": d}, f"socket opened to {d}, not to the proxy")
             return
-    proxy_bad = ps == "https" and case["proxy_cert"] != "ok"
+    proxy_bad = ps == "https" and not proxy_leg_ok(case)
+    if ps == "https":
+        rec.count("proxy_leg_" + ("must_fail" if proxy_bad else "ok"))
     tunnel_targets = {authority(r["host"], r["port"], "https") for r in all_hops if want_tunnel(ps, r["scheme"], case["forwarding"])}
     # a secret must stay hidden from the proxy when every hop that can carry it is tunnelled
     secrets_tunnelled = [f"app-secret-{j}" for j, hs in enumerate(hops_of) if all(want_tunnel(ps, h["scheme"], case["forwarding"]) for h in hs)]
@@ -169,8 +221,9 @@ def run_case(rec: Recorder, case: dict[str, typing.Any], certs: tlsnet.Certs) ->
         msgs = e.get("proxy_messages", [])
         if ps == "https":
             rec.mon("proxy_tls")
-            if proxy_bad and (e.get("outer_handshake") or e.get("proxy_bytes")):
-                bad("bytes-sent-to-unverified-proxy", {"outer_handshake": e.get("outer_handshake"), "proxy_bytes": e.get("proxy_bytes")}, "the proxy failed its own verification but the handshake completed / bytes were sent")
+            # (when urllib3 matches the name or pin itself the handshake completes first; only application bytes count)
+            if proxy_bad and e.get("proxy_bytes"):
+                bad("bytes-sent-to-unverified-proxy", {"outer_handshake": e.get("outer_handshake"), "proxy_bytes": e.get("proxy_bytes"), "proxy_verify": case.get("proxy_verify", "default"), "first": [(m.get("method"), m.get("target")) for m in msgs[:1]]}, "the proxy failed its own verification but bytes were sent to it")
                 return
             if e.get("outer_sni") not in (None, "proxy.test"):
                 bad("wrong-sni-to-proxy", {"sni": e.get("outer_sni")}, "TLS to the proxy used a server name other than the proxy's")
